@@ -154,7 +154,7 @@ def controls_for(prop):
         c("dollar-prefix-changed", "default", lambda r: replace_str_const(r, "issuer::ClaimsForSelectiveDisclosureStrategy::<'a>::finalize_input", "$.", "$"), "dollar-prefix")
         c("disclosure-push-deleted", "default", lambda r: call_to_goto(r, "issuer::SDJWTIssuer::create_sd_claims_list", lambda t: t.get("name") == "push" and t.get("self_ty") == "std::vec::Vec<disclosure::SDJWTDisclosure>"), "disclosure-recorded")
     if prop == "C06":
-        c("join-separator-changed", "default", lambda r: replace_str_const(r, "holder::SDJWTHolder::create_presentation", "~", "."), "compact-join")
+        c("join-separator-changed", "default", lambda r: replace_str_const(r, "holder::SDJWTHolder::create_presentation", "~", "."), "compact-")
         c("push-not-looked-up", "default", lambda r: rename_call(r, "holder::SDJWTHolder::select_disclosures", lambda t: t.get("name") == "index" and t.get("self_adt") == "std::collections::HashMap" and (t.get("self_ty") or "").endswith("std::string::String>"), name="first_x", trait=None), "push-genuine")
     if prop == "C07":
         c("len-guard-removed", "default", lambda r: force_switch(r, "SDJWTCommon::decode_header_and_get_sign_algorithm", lambda b: b["id"] <= 6 and b["term"]["k"] == "switch", "otherwise"), "C07.S")
